@@ -1,7 +1,9 @@
 """C16 Garbler never reports a wrong result under message corruption."""
 import hashlib
+import json
 import os
 import re
+import subprocess
 import sys
 
 import vlib
@@ -27,6 +29,11 @@ THEOREMS = [
     "Mpc.C16_labels_of_other_input_accepted",
     "Mpc.C16_description_member_width_witness",
     "Mpc.C16_description_residual_witness",
+    # the local check of the description covers EVERY record of the tree; a check applied once at the root does not
+    "Mpc.C16_desc_ok_iff_every_node",
+    "Mpc.C16_desc_oks_iff_every_node",
+    "Mpc.C16_desc_ok_every_width",
+    "Mpc.C16_root_only_check_accepts_inconsistent_member",    # negation witness for a check applied only at the root
 ]
 
 STREAM_REGIONS = ["stream_key", "stream_description", "stream_inputlabels", "stream_g2e_ot", "stream_instructions",
@@ -34,6 +41,53 @@ STREAM_REGIONS = ["stream_key", "stream_description", "stream_inputlabels", "str
 WHOLE_REGIONS = ["key", "tables", "inputlabels", "ot_sender", "resultdata", "ot_receiver_and_range", "outputlabels"]
 LENGTH_KINDS = ["keylen", "namelen", "typelen", "typedigit", "bits", "ccount", "nout", "nsteps", "ngates", "ntmp", "nwires",
                 "reslen"]
+
+
+GRAM_KINDS = ["sc", "ss", "ar", "sl", "sa", "sv", "ns", "as"]
+
+
+def replay_exact(ctx):
+    """`bin/check C16 --replay F`: when F holds one fault case of a session (session index, direction, offset, mask,
+    and for streaming sessions the program name and both parties' input strings), run exactly that case again on the
+    real code (one child process of the harness, as the enumeration does) before the seeded run."""
+    if "--replay" not in sys.argv:
+        return
+    try:
+        rp = sys.argv[sys.argv.index("--replay") + 1]
+        rp = rp if os.path.isabs(rp) else os.path.join(vlib.VERIF, rp)
+        f = json.load(open(rp)).get("failure") or {}
+    except Exception:
+        return
+    if not f.get("fault") or "seed" not in f:
+        return
+    argv = [ctx.hx, "faultchild", str(int(f["seed"])), "3000"] + str(f["fault"]).split()
+    if f.get("mode") == "streaming":
+        argv += [str(f.get("program")), str(f.get("garbler_inputs", "")), str(f.get("evaluator_inputs", ""))]
+    env = dict(os.environ)
+    env.update(vlib.GOENV)
+    classes = []
+    for _ in range(3):          # the session key of a streaming session is fresh in every run
+        try:
+            out = subprocess.run(argv, env=env, capture_output=True, text=True, timeout=120).stdout
+        except Exception as e:  # noqa: BLE001
+            out = "DONE crash %s" % e
+        cl = [ln[5:] for ln in out.splitlines() if ln.startswith("DONE ")]
+        classes.append(cl[-1] if cl else "crash")
+    print("replayed fault `%s` of %s session %s%s; garbler's outcome in 3 runs on this tree:\n  %s" % (
+        f["fault"], f.get("mode"), f.get("session"),
+        " (%s, inputs %s | %s)" % (f.get("program"), f.get("garbler_inputs"), f.get("evaluator_inputs"))
+        if f.get("mode") == "streaming" else "", " | ".join(classes)))
+    wrong = [c for c in classes if c.startswith("WRONG")]
+    if wrong:
+        g = dict(f)
+        g["class"] = wrong[0]
+        g["found_by"] = "exact replay of " + os.path.basename(rp)
+        print("  FAILS AGAIN: the garbler returns a wrong result as success")
+        ctx.fails.append(g)
+    else:
+        print("  the recorded case does not give a wrong result on this tree")
+    ctx.oblige("exact replay of the recorded fault case: outcome error | stalled | crash | ok(correct)", not wrong,
+               "%s -> %s" % (" ".join(argv[1:]), classes))
 
 
 def run(ctx):
@@ -74,6 +128,7 @@ def run(ctx):
                {"and_len": True, "index_bound": True})
     quick = ctx.tier == "quick"
     if ctx.build_hx():
+        replay_exact(ctx)
         ops, out, meta = ctx.run_hx("decide", 300 if quick else 6000, timeout=1500)
         ctx.absorb_meta(meta, prefix="decide_")
         ctx.correspond("garbler result loop on scripted returned labels (honest/garbage/bitflip/other-label)", ops, out)
@@ -119,6 +174,16 @@ def run(ctx):
                    c.get("faults_stream_output_bit_positions", 0) > 0 and c.get("faults_stream_output_bit_positions_never_1", 1) == 0,
                    {k: c.get(k) for k in ("faults_stream_output_bit_positions", "faults_stream_output_bit_positions_never_1",
                                           "faults_streaming_programs", "faults_streaming_sessions")})
+        ctx.oblige("streaming sessions generated from the argument type grammar: every kind (scalar, struct of scalars, array, "
+                   "slice, struct with array member, struct with slice member, nested struct, array of structs) is the "
+                   "EVALUATOR's and the GARBLER's argument of some session, both description trees of every such session were "
+                   "located, and every size word / member count / type digit of every node (members included) got faults",
+                   c.get("faults_gram_layout_ok", 0) == len(GRAM_KINDS) and
+                   all(c.get("faults_gram_kind_%s=%s" % (side, k), 0) > 0 for side in "GE" for k in GRAM_KINDS) and
+                   c.get("faults_gram_evaluator_description_with_members", 0) >= 4 and
+                   c.get("faults_gram_member_size_words", 0) >= 12 and
+                   all(c.get("faults_gram_field_cases_" + k, 0) > 0 for k in ("bits", "ccount", "typedigit", "typelen", "namelen")),
+                   {k: v for k, v in c.items() if k.startswith("faults_gram_")})
         ctx.coverage["exhaustive"] = not quick
         if ctx.widen:
             for s in range(ctx.seed + 7000, ctx.seed + 7003):
@@ -136,8 +201,14 @@ def run(ctx):
                             "ids, select-bit corners of every returned label, and every LENGTH / COUNT / WIDTH field of both "
                             "directions of the streaming sessions (located by parsing the recorded streams) changed to v-1, v/2, "
                             "v&(v-1), v+1, 2v, v|(v+1) (+ v-8, v+8, v-16, v+16, 0, v/4, 4v for widths and counts), every digit of every "
-                            "type string to every other digit, every bit of the framing of the result message; distinct = distinct "
-                            "op lines")
+                            "type string to every other digit, every bit of the framing of the result message; plus 8 streaming "
+                            "sessions per run whose programs are GENERATED from a type grammar (each party's argument one of scalar, "
+                            "struct of scalars, array, slice, struct with array member, struct with slice member, nested struct, "
+                            "array of structs; every kind on either side; widths, element counts and inputs from the seed; every "
+                            "element / member non-zero; result = weighted sum of every element with its own odd weight, so a member "
+                            "packed with another width or a dropped element changes the result): every size word, member count, "
+                            "string length and type digit of EVERY node of both argument description trees gets the same targets; "
+                            "distinct = distinct op lines")
     ctx.assumptions += [
         "authenticity of the garbling scheme under corruption (no transit corruption makes the evaluator produce label xor r) "
         "is proved SYMBOLICALLY (free hash, Dolev-Yao adversary limited to xor / hashing under any tweak / select bits / fresh labels: "
